@@ -207,6 +207,7 @@ fn base_alphabet() -> Vec<Op> {
         Op::Reserve { n: 64, try_: true },
         Op::Enter(Region::Scoped),
         Op::Enter(Region::Checkpoint),
+        Op::Enter(Region::ByValue),
         Op::Exit,
         Op::Reset,
         Op::ResetToStart,
@@ -260,6 +261,26 @@ pub fn spaces<'a>(prop: &'a str, thorough: bool, deadline: Instant, threads: usi
     v
 }
 
+/// the "core" subset of an alphabet: the operations that create the interesting predecessor states
+/// (mis-aligning allocations, chunk switches, reallocation of the newest block, deallocation, regions)
+fn is_core(o: &Op) -> bool {
+    match *o {
+        Op::Alloc { size, align, zeroed } => matches!((size, align, zeroed), (1, 1, false) | (3, 1, false) | (24, 8, _) | (40, 32, false) | (16, 1, false)),
+        Op::AllocRem { extra: 1, align: 1 } => true,
+        Op::Grow { sel: Sel::Newest, .. } => true,
+        Op::GrowRem { .. } => false,
+        Op::Shrink { sel: Sel::Newest, to: ShrinkTo::Half, .. } => true,
+        Op::Dealloc { sel: Sel::Newest } | Op::Dealloc { sel: Sel::Second } => true,
+        Op::Split { .. } => true,
+        Op::Prep { rev: false, .. } => true,
+        Op::PrepSlice { rev: true, .. } => true,
+        Op::Enter(Region::Scoped) | Op::Enter(Region::ByValue) | Op::Enter(Region::Aligned(1)) | Op::Enter(Region::Claim) | Op::Enter(Region::Guard) => true,
+        Op::Exit | Op::ExitUnwind | Op::Reset => true,
+        Op::TryWith { mutable: true, ok: false, .. } => true,
+        _ => false,
+    }
+}
+
 pub fn spaces_mode<'a>(prop: &'a str, mode: Mode, deadline: Instant, threads: usize) -> Vec<Space<'a>> {
     let thorough = mode == Mode::Deep;
     let (groups, probes) = groups_of(prop);
@@ -268,6 +289,7 @@ pub fn spaces_mode<'a>(prop: &'a str, mode: Mode, deadline: Instant, threads: us
     let og = SlabCfg { phase: 48, overgrant: 40, fail_mask: 0 };
     let og2 = SlabCfg { phase: 4080, overgrant: 100, fail_mask: 0 };
     let mk = |alphabet: Vec<Op>, depth: usize, params: Vec<RunParams>, fault: FaultMode, nontrivial: fn(&Cover, &[Op]) -> bool, rule: &'a str, floor: u64| Space {
+        reset_loop: prop == "C03",
         suffix: Vec::new(),
         tail: Vec::new(),
         variants: Vec::new(),
@@ -288,15 +310,16 @@ pub fn spaces_mode<'a>(prop: &'a str, mode: Mode, deadline: Instant, threads: us
     };
     let d = |q: usize, t: usize| if thorough { t } else { q };
     match prop {
-        "C01" => vec![mk(
-            base_alphabet(),
-            d(4, 5),
-            params(&[Handle::Direct, Handle::WoShrink, Handle::Dyn], &[Ctor::TryNew, Ctor::Unallocated], &[z, og]),
-            FaultMode::None,
-            nontrivial_c01,
-            "every enabled history over the alphabet up to the depth bound, per configuration and run-parameter set; non-trivial = the history performed a realloc (in place or moved), switched chunks, or had >= 2 non-empty live blocks at some point",
-            1000,
-        )],
+        "C01" => {
+            let rule = "every enabled history over the alphabet up to the depth bound, per configuration and run-parameter set (quick: the full alphabet to depth 3 and its core subset to depth 4; thorough: the full alphabet to depth 4/5); non-trivial = the history performed a realloc (in place or moved), switched chunks, or had >= 2 non-empty live blocks at some point";
+            let ps = params(if thorough { &[Handle::Direct, Handle::WoShrink, Handle::Dyn] } else { &[Handle::Direct, Handle::Dyn] }, &[Ctor::TryNew, Ctor::Unallocated], &[z, og]);
+            if mode == Mode::Quick {
+                let core: Vec<Op> = base_alphabet().into_iter().filter(is_core).collect();
+                vec![mk(base_alphabet(), 3, ps.clone(), FaultMode::None, nontrivial_c01, rule, 1000), mk(core, 4, ps, FaultMode::None, nontrivial_c01, rule, 1000)]
+            } else {
+                vec![mk(base_alphabet(), d(4, 5), ps, FaultMode::None, nontrivial_c01, rule, 1000)]
+            }
+        }
         "C02" => {
             // emphasis: alignment-changing reallocations, wrappers, zeroing, prepared allocations that move data
             let a = vec![
@@ -331,33 +354,30 @@ pub fn spaces_mode<'a>(prop: &'a str, mode: Mode, deadline: Instant, threads: us
                 Op::Exit,
                 Op::TryWith { mutable: false, ok: true, inner: Some((3, 1)), try_: false },
             ];
-            vec![mk(
-                a,
-                d(4, 5),
-                params(&[Handle::Direct, Handle::WoShrink, Handle::WoShrinkWoDealloc, Handle::WoDealloc, Handle::RefMut], &[Ctor::TryNew], &[z, og]),
-                FaultMode::None,
-                nontrivial_c01,
-                "every enabled history over the alphabet up to the depth bound, per configuration x handle kind x substrate; non-trivial = the history performed a realloc (in place or moved), switched chunks, or had >= 2 non-empty live blocks",
-                1000,
-            )]
+            let rule = "every enabled history over the alphabet up to the depth bound, per configuration x handle kind x substrate (quick: the full alphabet to depth 3 and its core subset to depth 4; thorough: full alphabet to depth 4/5); non-trivial = the history performed a realloc (in place or moved), switched chunks, or had >= 2 non-empty live blocks";
+            let ps = params(&[Handle::Direct, Handle::WoShrink, Handle::WoShrinkWoDealloc, Handle::WoDealloc, Handle::RefMut], &[Ctor::TryNew], &[z, og]);
+            if mode == Mode::Quick {
+                let core: Vec<Op> = a.iter().copied().filter(|o| is_core(o) || matches!(o, Op::Shrink { align: 32, .. } | Op::Grow { sel: Sel::Second, .. })).collect();
+                vec![mk(a, 3, ps.clone(), FaultMode::None, nontrivial_c01, rule, 1000), mk(core, 4, ps, FaultMode::None, nontrivial_c01, rule, 1000)]
+            } else {
+                vec![mk(a, d(4, 5), ps, FaultMode::None, nontrivial_c01, rule, 1000)]
+            }
         }
         "C10" => {
             let mut a = base_alphabet();
             a.retain(|o| !matches!(o, Op::Split { .. } | Op::Prep { rev: true, .. }));
             a.push(Op::Enter(Region::Aligned(1)));
             a.push(Op::Enter(Region::Aligned(16)));
-            a.push(Op::Enter(Region::ByValue));
             a.push(Op::Enter(Region::Claim));
             a.push(Op::TryWith { mutable: true, ok: false, inner: None, try_: false });
-            vec![mk(
-                a,
-                d(4, 5),
-                params(if thorough { &[Handle::Direct, Handle::Dyn, Handle::DynCore, Handle::RefRef] } else { &[Handle::Direct, Handle::DynCore] }, &[Ctor::TryNew, Ctor::Unallocated], &[z, og2]),
-                FaultMode::None,
-                nontrivial_c01,
-                "every enabled history over the alphabet up to the depth bound, per configuration and run-parameter set; non-trivial = the history performed a realloc, switched chunks, or had >= 2 non-empty live blocks",
-                1000,
-            )]
+            let rule = "every enabled history over the alphabet up to the depth bound, per configuration and run-parameter set (quick: the full alphabet to depth 3 and its core subset to depth 4; thorough: full alphabet to depth 4/5); non-trivial = the history performed a realloc, switched chunks, or had >= 2 non-empty live blocks";
+            let ps = params(if thorough { &[Handle::Direct, Handle::Dyn, Handle::DynCore, Handle::RefRef] } else { &[Handle::Direct, Handle::DynCore] }, &[Ctor::TryNew, Ctor::Unallocated], &[z, og2]);
+            if mode == Mode::Quick {
+                let core: Vec<Op> = a.iter().copied().filter(|o| is_core(o) || matches!(o, Op::Enter(Region::Aligned(16)))).collect();
+                vec![mk(a, 3, ps.clone(), FaultMode::None, nontrivial_c01, rule, 1000), mk(core, 4, ps, FaultMode::None, nontrivial_c01, rule, 1000)]
+            } else {
+                vec![mk(a, d(4, 5), ps, FaultMode::None, nontrivial_c01, rule, 1000)]
+            }
         }
         "C13" => {
             let a = vec![
@@ -520,6 +540,7 @@ pub fn spaces_mode<'a>(prop: &'a str, mode: Mode, deadline: Instant, threads: us
                 Op::Enter(Region::Checkpoint),
                 Op::Enter(Region::Claim),
                 Op::Enter(Region::Aligned(2)),
+                Op::Enter(Region::ByValue),
                 Op::Exit,
                 Op::ExitUnwind,
                 al(3, 1),
@@ -532,10 +553,17 @@ pub fn spaces_mode<'a>(prop: &'a str, mode: Mode, deadline: Instant, threads: us
                 Op::Reset,
                 Op::ResetToStart,
             ];
+            let ps = params(&[Handle::Direct], &[Ctor::TryNew, Ctor::Unallocated], &[z, og]);
+            if mode == Mode::Quick {
+                // full alphabet to depth 4, the core subset (one scope kind per mechanism) to depth 5
+                let core: Vec<Op> = a.iter().copied().filter(|o| is_core(o) || matches!(o, Op::Enter(Region::Checkpoint))).collect();
+                let r = "every enabled (well-nested) history over scope kinds {scoped, scoped_aligned, guard drop, guard reset, checkpoint/reset_to, claim, aligned, by_value} x exits {return, unwind} x workload ops (quick: full alphabet to depth 4, core subset to depth 5); every closed scope is additionally re-run in a fresh scope with the same concrete requests (must need no base-allocator call), and every history shorter than the depth bound is run six times in a `history; reset()` loop (the last two rounds must not reach the base allocator); non-trivial = a scope/reset history that switched chunks, unwound or nested >= 2 scopes";
+                return vec![mk(a, 4, ps.clone(), FaultMode::None, nontrivial_c03, r, 500), mk(core, 5, ps, FaultMode::None, nontrivial_c03, r, 500)];
+            }
             vec![mk(
                 a,
                 d(5, 6),
-                params(&[Handle::Direct], &[Ctor::TryNew, Ctor::Unallocated], &[z, og]),
+                ps,
                 FaultMode::None,
                 nontrivial_c03,
                 "every enabled (well-nested) history over scope kinds {scoped, scoped_aligned, guard drop, guard reset, checkpoint/reset_to, claim, aligned} x exits {return, unwind} x workload ops up to the depth bound; every closed scope is additionally re-run in a fresh scope (must need no base-allocator call); non-trivial = a scope/reset history that switched chunks, unwound or nested >= 2 scopes",
